@@ -174,3 +174,68 @@ func HarnessC01Recreate() {
 	ex, _ := g2.Exist(ctx, a.t)
 	verif.Assert(!ex, "C01/recreate/old-triple-gone")
 }
+
+// C01 (B'): triples that differ only in the predicate's kind or instant are
+// different triples, also inside one batch: t1 and t2 share subject,
+// predicate identifier and object (symbolic bytes) and differ at most in kind
+// and anchor (immutable, an instant, one nanosecond later, the same instant in
+// another zone); t3 is arbitrary.  Add them in one batch, remove a batch, and
+// compare Exist and the listing with the reference set.
+func HarnessC01KindBatch() {
+	g, err := memory.NewStore().NewGraph(ctx, "?g")
+	verif.Assume(err == nil)
+	kinds := [][2]int{{0, 0}, {1, 0}, {1, 1}, {1, 2}}
+	k1 := kinds[verif.Choice("k1", len(kinds))]
+	k2 := kinds[verif.Choice("k2", len(kinds))]
+	t1 := symTripleKinds("t", k1[0], k1[1], 0)
+	t2 := &spec{sb: t1.sb, pb: t1.pb, ob: t1.ob, pk: k2[0], pa: k2[1]}
+	t2.t = t2.build()
+	t3 := symTriple("u", true)
+	added := []*spec{t1, t2, t3}
+	var removed []*spec
+	switch verif.Choice("remove", 5) {
+	case 0:
+		removed = []*spec{t1, t2}
+	case 1:
+		removed = []*spec{t1}
+	case 2:
+		removed = []*spec{t2, t3}
+	case 3:
+		removed = []*spec{t3, t1, t1}
+	}
+	ok := noPanic("C01/kinds/no-panic", func() {
+		verif.Assert(g.AddTriples(ctx, triples(added)) == nil, "C01/kinds/add-succeeds")
+		verif.Assert(g.RemoveTriples(ctx, triples(removed)) == nil, "C01/kinds/remove-succeeds")
+	})
+	if !ok {
+		return
+	}
+	verif.Reach("operated")
+	present := func(x *spec) bool { return verif.And(anyEq(x, added), !anyEq(x, removed)) }
+	for _, x := range added {
+		ex, err := g.Exist(ctx, x.t)
+		verif.Assert(err == nil, "C01/kinds/exist-succeeds")
+		verif.Assert(ex == present(x), "C01/kinds/exist-iff-in-set")
+	}
+	lst, err := listing(g)
+	verif.Assert(err == nil, "C01/kinds/listing-succeeds")
+	var listed []*spec
+	for _, t := range lst {
+		var x *spec
+		for _, y := range added {
+			if y.t == t {
+				x = y
+			}
+		}
+		verif.Assert(x != nil, "C01/kinds/listed-was-added")
+		if x == nil {
+			return
+		}
+		verif.Assert(present(x), "C01/kinds/listed-is-in-set")
+		verif.Assert(!anyEq(x, listed), "C01/kinds/listed-once")
+		listed = append(listed, x)
+	}
+	for _, x := range added {
+		verif.Assert(verif.Implies(present(x), anyEq(x, listed)), "C01/kinds/in-set-is-listed")
+	}
+}
